@@ -127,15 +127,25 @@ where
       state.p = state.p.saturating_sub(delta);
     }
 
+    // Make room. The key `replace` moves to a ghost list is no longer tracked by this policy,
+    // so the cache must be told to evict it - otherwise it stays resident but can never be
+    // nominated again and the cache sits above its capacity for good.
+    let mut victims = Vec::new();
     let t2_cost = state.t2.current_total_cost();
     if state.t1.current_total_cost() + t2_cost >= self.capacity {
-      state.replace(self.capacity, key_in_b2);
+      if let Some((victim, _cost)) = state.replace(self.capacity, key_in_b2) {
+        victims.push(victim);
+      }
     }
 
     // Insert the new item into T1.
     state.t1.push_front(key.clone(), cost);
 
-    AdmissionDecision::Admit
+    if victims.is_empty() {
+      AdmissionDecision::Admit
+    } else {
+      AdmissionDecision::AdmitAndEvict(victims)
+    }
   }
 
   fn on_remove(&self, key: &K) {
